@@ -447,7 +447,7 @@ def sec_glue(S):
     key = re.search(r"serialize_field\(\s*\"(\w+)\"\s*,\s*key\s*\)", block_after(src, m.end())) if m else None
     m = re.search(r"impl\s+FromStr\s+for\s+KeyKeywordLiteral", src)
     rkey = re.search(r"\"(\w+)\"\s*=>\s*Ok\(Self\)", block_after(src, m.end())) if m else None
-    wrap = re.search(r"struct\s+DictHelper\s*\{\s*(\w+)\s*:", src)
+    wrap = re.search(r"struct\s+DictHelper\s*\{\s*(?:#\[serde\(\s*rename\s*=\s*\"(\w+)\"\s*\)\]\s*)?(\w+)\s*:", src)
     wwrap = re.search(r"lib\.serialize_field\(\s*\"(\w+)\"", src)
     if len(rd) < 5 or len(wr) < 5 or not key or not rkey or not wrap or not wwrap:
         raise NotFound("glue keyword tables")
@@ -461,7 +461,7 @@ def sec_glue(S):
             ", ".join("(%s, %s)" % (lean_str(a), lean_str(b)) for a, b in sorted(wrows)) + "]\n" +
             "def glueKeyTagWritten : String := %s\ndef glueKeyTagRead : String := %s\n"
             "def glueWrapperWritten : String := %s\ndef glueWrapperRead : String := %s\n"
-            % (lean_str(key.group(1)), lean_str(rkey.group(1)), lean_str(wwrap.group(1)), lean_str(wrap.group(1))))
+            % (lean_str(key.group(1)), lean_str(rkey.group(1)), lean_str(wwrap.group(1)), lean_str(wrap.group(1) or wrap.group(2))))
 
 
 # ------------------------------------------------------------------ plist / time
